@@ -272,7 +272,133 @@ where
     }
 }
 
-const KINDS: [&str; 8] = [
+/// 1-D data (Ix1): the scalar entry point
+struct S1s<S: Interp1DStrategy<OwnedRepr<f64>, OwnedRepr<f64>, Ix1>> {
+    ip: Interp1D<OwnedRepr<f64>, OwnedRepr<f64>, Ix1, S>,
+    sib: Interp1D<OwnedRepr<f64>, OwnedRepr<f64>, Ix1, S>,
+}
+
+fn sc(r: Result<Result<f64, ndarray_interp::InterpolateError>, String>) -> Outcome {
+    match r {
+        Ok(Ok(v)) => Outcome::Ok(vec![], vec![if v.is_nan() { u64::MAX } else { v.to_bits() }]),
+        Ok(Err(_)) => Outcome::Err("OutOfBounds".into()),
+        Err(_) => Outcome::Panic,
+    }
+}
+fn arr<D: ndarray::Dimension>(r: Result<Result<ndarray::Array<f64, D>, ndarray_interp::InterpolateError>, String>) -> Outcome {
+    match r {
+        Ok(Ok(a)) => Outcome::Ok(a.shape().to_vec(), a.iter().map(|v| if v.is_nan() { u64::MAX } else { v.to_bits() }).collect()),
+        Ok(Err(_)) => Outcome::Err("OutOfBounds".into()),
+        Err(_) => Outcome::Panic,
+    }
+}
+
+impl<S> Subject for S1s<S>
+where
+    S: Interp1DStrategy<OwnedRepr<f64>, OwnedRepr<f64>, Ix1> + Debug + Send + Sync,
+{
+    fn op(&self, op: usize) -> Outcome {
+        let q = q_of(&AX);
+        let qs = q_of(&AX_SIB);
+        match op {
+            0 => sc(catch(|| self.ip.interp_scalar(q[0]))),
+            1 => sc(catch(|| self.ip.interp_scalar(q[1]))),
+            2 => sc(catch(|| self.ip.interp_scalar(q[2]))),
+            3 => sc(catch(|| self.ip.interp_scalar(q[3]))),
+            4 => sc(catch(|| self.ip.interp_scalar(q[4]))),
+            5 => arr(catch(|| self.ip.interp_array(&Array1::from(vec![q[1], q[0], q[5]])))),
+            6 => arr(catch(|| self.ip.interp_array(&Array1::from(vec![q[6], -1e9])))),
+            7 => {
+                let xs = Array1::from(vec![q[0], q[1]]);
+                let mut buf = Array1::<f64>::zeros(3);
+                match catch(|| self.ip.interp_array_into(&xs, buf.view_mut())) {
+                    Ok(Ok(())) => Outcome::Ok(vec![3], buf.iter().map(|v| v.to_bits()).collect()),
+                    Ok(Err(e)) => Outcome::Err(e.to_string()),
+                    Err(_) => Outcome::Panic,
+                }
+            }
+            8 => sc(catch(|| self.ip.interp_scalar(-1e9))),
+            9 => arr(catch(|| self.ip.interp(q[0]))),
+            10 => arr(catch(|| self.ip.interp_array(&ndarray::arr2(&[[q[0], q[1]], [q[1], q[7]]])))),
+            11 => sc(catch(|| self.sib.interp_scalar(qs[1]))),
+            12 => sc(catch(|| self.sib.interp_scalar(qs[0]))),
+            13 => sc(catch(|| self.ip.interp_scalar(AX[4]))),
+            14 => sc(catch(|| self.ip.interp_scalar(AX[0]))),
+            _ => sc(catch(|| self.ip.interp_scalar(q[1] + 1e-9))),
+        }
+    }
+    fn fingerprint(&self) -> u64 {
+        fnv(&format!("{:?}|{:?}", self.ip, self.sib))
+    }
+}
+
+/// 2-D data (Ix2): the scalar entry point
+struct S2s<S: Interp2DStrategy<OwnedRepr<f64>, OwnedRepr<f64>, OwnedRepr<f64>, Ix2>> {
+    ip: Interp2D<OwnedRepr<f64>, OwnedRepr<f64>, OwnedRepr<f64>, Ix2, S>,
+    sib: Interp2D<OwnedRepr<f64>, OwnedRepr<f64>, OwnedRepr<f64>, Ix2, S>,
+}
+
+impl<S> Subject for S2s<S>
+where
+    S: Interp2DStrategy<OwnedRepr<f64>, OwnedRepr<f64>, OwnedRepr<f64>, Ix2> + Debug + Send + Sync,
+{
+    fn op(&self, op: usize) -> Outcome {
+        let q = q_of(&AX);
+        let qs = q_of(&AX_SIB);
+        let yk = AY[1];
+        let yi = AY[1] + 0.3 * (AY[2] - AY[1]);
+        let yj = AY[0] + 0.9 * (AY[1] - AY[0]);
+        match op {
+            0 => sc(catch(|| self.ip.interp_scalar(q[0], yk))),
+            1 => sc(catch(|| self.ip.interp_scalar(q[1], yj))),
+            2 => sc(catch(|| self.ip.interp_scalar(q[2], yi))),
+            3 => sc(catch(|| self.ip.interp_scalar(q[0], AY[3] + 50.0))),
+            4 => sc(catch(|| self.ip.interp_scalar(q[4], yk))),
+            5 => arr(catch(|| self.ip.interp_array(&Array1::from(vec![q[1], q[0], q[5]]), &Array1::from(vec![yj, yk, yi])))),
+            6 => arr(catch(|| self.ip.interp_array(&Array1::from(vec![q[6], -1e9]), &Array1::from(vec![yi, yi])))),
+            7 => sc(catch(|| self.ip.interp_scalar(7.0e9, yk))),
+            8 => sc(catch(|| self.ip.interp_scalar(7.0e9, yk))),
+            9 => arr(catch(|| self.ip.interp(q[0], yk))),
+            10 => sc(catch(|| self.ip.interp_scalar(q[0], yk))),
+            11 => sc(catch(|| self.sib.interp_scalar(qs[1], yi))),
+            12 => sc(catch(|| self.sib.interp_scalar(qs[0], yk))),
+            13 => sc(catch(|| self.ip.interp_scalar(AX[4], AY[3]))),
+            14 => sc(catch(|| self.ip.interp_scalar(AX[0], AY[0]))),
+            _ => sc(catch(|| self.ip.interp_scalar(q[1], yj + 1e-9))),
+        }
+    }
+    fn fingerprint(&self) -> u64 {
+        fnv(&format!("{:?}|{:?}", self.ip, self.sib))
+    }
+}
+
+/// a long axis (70 knots): lazily built acceleration structures only exist for long axes
+fn long_axis(off: f64) -> Vec<f64> {
+    (0..70).map(|i| off + i as f64 * 0.3 + if i % 3 == 1 { 0.07 } else { 0.0 }).collect()
+}
+
+struct SLong {
+    ip: Interp1D<OwnedRepr<f64>, OwnedRepr<f64>, Ix2, Linear>,
+}
+impl Subject for SLong {
+    fn op(&self, op: usize) -> Outcome {
+        let x = long_axis(0.1);
+        let q = [x[35], x[34] + 0.75 * (x[35] - x[34]), x[60] + 0.1, x[69] + 100.0, f64::NAN, x[2] + 0.05];
+        match op {
+            0 => outcome(call1d(&self.ip, &[q[0]], &[1], 2, "interp")),
+            1 => outcome(call1d(&self.ip, &[q[1]], &[1], 2, "interp")),
+            2 => outcome(call1d(&self.ip, &[q[2]], &[1], 2, "interp")),
+            3 => outcome(call1d(&self.ip, &[q[3]], &[1], 2, "interp")),
+            5 => outcome(call1d(&self.ip, &[q[1], q[0], q[5]], &[3], 2, "interp_array/static")),
+            _ => outcome(call1d(&self.ip, &[q[5]], &[1], 2, "interp")),
+        }
+    }
+    fn fingerprint(&self) -> u64 {
+        fnv(&format!("{:?}", self.ip))
+    }
+}
+
+const KINDS: [&str; 11] = [
     "Linear",
     "Linear+extrapolate",
     "CubicSpline/NotAKnot",
@@ -281,6 +407,9 @@ const KINDS: [&str; 8] = [
     "CubicSpline/Individual",
     "Bilinear",
     "Bilinear+extrapolate",
+    "Linear/scalar(1-d data)",
+    "Bilinear/scalar(2-d data)",
+    "Linear/long axis (70 knots)",
 ];
 
 fn build(kind: usize) -> Box<dyn Subject> {
@@ -299,10 +428,23 @@ fn build(kind: usize) -> Box<dyn Subject> {
         3 => spl(BcSpec::TopNatural, false, false),
         4 => spl(BcSpec::Periodic, true, true),
         5 => spl(BcSpec::Lanes(vec![(End::First(0.5), End::NotAKnot), (End::Natural, End::Second(-2.0))]), false, false),
-        _ => Box::new(S2 {
+        6 | 7 => Box::new(S2 {
             ip: build_bilinear::<f64, Ix3>(Some(&AX), Some(&AY), data2(0.0), kind == 7).expect("valid build"),
             sib: build_bilinear::<f64, Ix3>(Some(&AX_SIB), Some(&AY), data2(0.5), kind == 7).expect("valid build"),
         }),
+        8 => Box::new(S1s {
+            ip: build_linear::<f64, Ix1>(Some(&AX), data1(false, 0.0).column(0).to_owned(), false).expect("valid build"),
+            sib: build_linear::<f64, Ix1>(Some(&AX_SIB), data1(false, 0.25).column(1).to_owned(), false).expect("valid build"),
+        }),
+        9 => Box::new(S2s {
+            ip: build_bilinear::<f64, Ix2>(Some(&AX), Some(&AY), data2(0.0).index_axis(ndarray::Axis(2), 0).to_owned(), false).expect("valid build"),
+            sib: build_bilinear::<f64, Ix2>(Some(&AX_SIB), Some(&AY), data2(0.5).index_axis(ndarray::Axis(2), 1).to_owned(), false).expect("valid build"),
+        }),
+        _ => {
+            let x = long_axis(0.1);
+            let d = Array2::from_shape_fn((70, 2), |(i, j)| ((i * 2 + j) as f64 * 0.37).sin() + 0.01 * i as f64);
+            Box::new(SLong { ip: build_linear::<f64, Ix2>(Some(&x), d, true).expect("valid build") })
+        }
     }
 }
 
@@ -436,10 +578,12 @@ struct Program {
     kind: usize,
     /// ops of each thread
     threads: Vec<Vec<usize>>,
+    /// preemption bound (usize::MAX = every interleaving)
+    bound: usize,
 }
 impl Program {
     fn key(&self) -> String {
-        format!("sched:{}:{:?}", KINDS[self.kind], self.threads).replace(' ', "")
+        format!("sched:{}:{:?}:{}", KINDS[self.kind], self.threads, if self.bound == usize::MAX { "all".to_string() } else { format!("pb{}", self.bound) }).replace(' ', "")
     }
 }
 
@@ -459,7 +603,7 @@ fn run_program(p: &Program, out: &mut JobOut) {
         let mut cfg = shuttle::Config::new();
         let _ = std::fs::create_dir_all(&dir);
         cfg.failure_persistence = shuttle::FailurePersistence::File(Some(dir.clone()));
-        let runner = shuttle::Runner::new(shuttle::scheduler::DfsScheduler::new(None, false), cfg);
+        let runner = shuttle::Runner::new(nimc::sched::PbDfs::new(p.bound), cfg);
         IN_SHUTTLE.with(|c| c.set(true));
         let r = std::panic::catch_unwind(std::panic::AssertUnwindSafe(|| {
             runner.run(move || {
@@ -514,7 +658,7 @@ fn run_program(p: &Program, out: &mut JobOut) {
     out.evals += counts[0];
     out.states += 1;
     out.nontrivial += 1;
-    out.outcome("schedule:all-equal-to-sequential");
+    out.outcome(if p.bound == usize::MAX { "schedule:every-interleaving-equal-to-sequential".to_string() } else { format!("schedule:all-with<={}-preemptions-equal-to-sequential", p.bound) });
     out.maximum("schedules_of_one_program", counts[0] as f64);
     if counts[0] != counts[1] {
         // the harness does not own every choice: machinery problem, not a verdict
@@ -552,6 +696,7 @@ fn body(ctx: &Ctx) -> (Summary, Meta) {
     let mut selected_per_kind = vec![0u64; KINDS.len()];
     for kind in 0..KINDS.len() {
         let pts: Vec<u64> = (0..NOPS).map(|o| points_of(kind, o)).collect();
+        #[allow(unused_assignments)]
         let mut cands: Vec<Vec<Vec<usize>>> = vec![];
         for &a in &SCHED_OPS {
             for &b in &SCHED_OPS {
@@ -564,6 +709,12 @@ fn body(ctx: &Ctx) -> (Summary, Meta) {
         for t in [[1usize, 0, 2], [0, 0, 1], [2, 3, 0], [1, 1, 0], [3, 0, 1], [0, 2, 2]] {
             cands.push(t.iter().map(|&o| vec![o]).collect());
         }
+        if kind >= 8 && kind != 10 {
+            continue; // the scalar kinds share their query path with kinds 0 and 6
+        }
+        if kind == 10 {
+            cands = vec![vec![vec![1], vec![0]], vec![vec![0], vec![2]], vec![vec![5], vec![1]], vec![vec![1], vec![0], vec![2]]];
+        }
         for threads in cands {
             // a thread with p points has p + 1 segments; spawn and finish add one each
             let seg: Vec<u64> = threads.iter().map(|ops| ops.iter().map(|&o| pts[o]).sum::<u64>() + 2).collect();
@@ -571,9 +722,14 @@ fn body(ctx: &Ctx) -> (Summary, Meta) {
             if est <= budget {
                 est_total += est;
                 selected_per_kind[kind] += 1;
-                jobs.push(Job::Sched(Program { kind, threads }));
+                jobs.push(Job::Sched(Program { kind, threads, bound: usize::MAX }));
             } else {
+                // too many interleavings for an unbounded search: every schedule with at most
+                // `pb` preemptions instead
                 over_budget += 1;
+                let total: u64 = seg.iter().sum();
+                let pb = if !quick && (total as f64).powi(3) * (seg.len() as f64).powi(3) <= budget * 8.0 { 3 } else { 2 };
+                jobs.push(Job::Sched(Program { kind, threads, bound: pb }));
             }
         }
     }
@@ -621,7 +777,7 @@ fn body(ctx: &Ctx) -> (Summary, Meta) {
             "shuttle models sequential consistency".into(),
         ],
         extra: vec![
-            ("schedule_programs_over_budget_not_run".into(), Json::Int(over_budget as i128)),
+            ("schedule_programs_explored_with_a_preemption_bound_instead_of_every_interleaving".into(), Json::Int(over_budget as i128)),
             ("estimated_interleavings_of_selected_programs".into(), Json::Num(est_total)),
             ("schedule_programs_per_interpolator".into(), Json::Obj(KINDS.iter().zip(&selected_per_kind).map(|(k, n)| (k.to_string(), Json::Int(*n as i128))).collect())),
         ],
